@@ -170,11 +170,21 @@ PartIsSlice(W, f, p) ==
     /\ Len(p.body) = p.hi - p.lo + 1
     /\ p.body = FileSlice(W, f, p.lo, p.hi)
 
+BigList == 129
 C03Violations(W, q, r) ==
     IF ~(q.method = "GET" /\ PlainPath(q) /\ q.range.present /\ ~Reserved(q)) THEN {}
     ELSE LET L == Lookup(W, q.segs) IN
          IF L.sel \notin {"file", "index", "html"} THEN {}
          ELSE LET f == L.node  len == FileLen(W, f)  specs == q.range.specs  parts == RangeParts(r) IN
+              IF Len(specs) > BigList
+              THEN \* a range list too long for the part-by-part judgement (hundreds of parts): every spec in the file => one part each.
+                   \* The closing delimiter of this server has no trailing "--", so a body of n parts holds n + 1 delimiter lines.
+                   IF q.range.unit_ok /\ \A i \in 1..Len(specs) : InFile(len, specs[i])
+                   THEN (IF r.status = 206 THEN {} ELSE {"C03.satisfiable_not_206"})
+                        \cup (IF r.status = 206 /\ ~IsMultipart(r) THEN {"C03.not_multipart"} ELSE {})
+                        \cup (IF r.status = 206 /\ IsMultipart(r) /\ r.ndelims # Len(specs) + 1 THEN {"C03.part_count"} ELSE {})
+                   ELSE {}
+              ELSE
               IF q.range.unit_ok /\ q.range.style # "empty_element" /\ Len(specs) >= 1 /\ \A i \in 1..Len(specs) : InFile(len, specs[i])
               THEN \* every range lies inside the file: 206 with exactly these slices, in request order
                    (IF r.status = 206 THEN {} ELSE {"C03.satisfiable_not_206"})
@@ -214,6 +224,7 @@ C03Detail(W, q, r) ==
     IF ~(q.method = "GET" /\ PlainPath(q) /\ q.range.present /\ ~Reserved(q)) THEN <<>>
     ELSE LET L == Lookup(W, q.segs) IN
          IF L.sel \notin {"file", "index", "html"} THEN <<>>
+         ELSE IF Len(q.range.specs) > BigList THEN <<>>
          ELSE LET f == L.node  len == FileLen(W, f)  specs == q.range.specs  parts == RangeParts(r)
                   sat == q.range.unit_ok /\ q.range.style # "empty_element" /\ Len(specs) >= 1 /\ \A i \in 1..Len(specs) : InFile(len, specs[i])
               IN [i \in 1..Len(parts) |->
